@@ -346,6 +346,7 @@ class VTensor(V):
         if mask is None:
             return [d.size for d in self.dims]
         k = len(mask.dims)
+        at = self.meta.get("masked_at", len(self.dims) - k)
         cnt = mask.meta.get("count_symbol")
         if cnt is None:
             cnt = z3.Int(fresh("count_selected"))
@@ -357,7 +358,7 @@ class VTensor(V):
                 for d in mask.dims:
                     tot = tot * d.size
                 ctx.assume(z3.And(cnt >= 0, cnt <= tot))
-        return [d.size for d in self.dims[: len(self.dims) - k]] + [cnt]
+        return [d.size for d in self.dims[:at]] + [cnt] + [d.size for d in self.dims[at + k:]]
 
     def shape_tuple(self):
         return VTuple([VNum(e) for e in self.visible_extents()], is_size=True)
@@ -1079,13 +1080,12 @@ def index_tensor(t, it, ctx, idx):
     # x[..., mask] with a boolean mask over the trailing dims (all other items full slices): the selection is kept in place, tagged with
     # its mask (see m_masked_select): an entry outside the mask is never observed
     bools = [x for x in items if isinstance(x, VTensor) and x.sort == "bool"]
-    if len(bools) == 1 and isinstance(items[-1], VTensor) and items[-1] is bools[0] and all(
-            isinstance(x, VSlice) and x.start is NONE and x.stop is NONE and x.step is NONE for x in items[:-1]):
+    if len(bools) == 1 and all(x is bools[0] or (isinstance(x, VSlice) and x.start is NONE and x.stop is NONE and x.step is NONE) for x in items):
         mask = bools[0]
-        lead = len(items) - 1
-        if lead + len(mask.dims) == len(t.dims):
+        pos = next(i_ for i_, x in enumerate(items) if x is mask)
+        if len(items) - 1 + len(mask.dims) == len(t.dims):
             r = VTensor(list(t.dims), t.elem, t.sort)
-            r.meta = {"masked_by": mask}
+            r.meta = {"masked_by": mask, "masked_at": pos}
             return r
     # multi-atom dims touched by a non-trivial index are flattened first
     src = t
@@ -1264,6 +1264,29 @@ def setitem_tensor(t, it, ctx, idx, v):
         def elem(i_):
             n, o = coerce_pair(se(i_), old(i_))
             return z3.If(me(i_), n, o)
+
+        t.elem = elem
+        t.sort = "real" if "real" in (t.sort, src.sort) else t.sort
+        t.meta["version"] = t.meta.get("version", 0) + 1
+        return
+    # x[..., mask] = v  /  x[:, mask] = v : a boolean mask over the trailing dims, everything before it a full slice / Ellipsis
+    items = list(idx.items) if isinstance(idx, VTuple) else None
+    if items and isinstance(items[-1], VTensor) and items[-1].sort == "bool" and all(
+            x is ELLIPSIS or (isinstance(x, VSlice) and x.start is NONE and x.stop is NONE and x.step is NONE) for x in items[:-1]):
+        mask = items[-1]
+        k = len(mask.dims)
+        lead_atoms = sum(len(d.atoms) for d in t.dims[: len(t.dims) - k])
+        src = as_tensor(v)
+        if src.natoms() > 0 and src.meta.get("masked_by") is not mask:
+            raise Undecided("mask assignment from a source that was not selected by the same mask")
+        old, me = t.elem, mask.elem
+        src = src.frozen()
+        nsrc = src.natoms()
+
+        def elem(i_):
+            sv = src.elem(list(i_)[len(i_) - nsrc:]) if nsrc else src.elem([])
+            n, o = coerce_pair(sv, old(i_))
+            return z3.If(me(list(i_)[lead_atoms:]), n, o)
 
         t.elem = elem
         t.sort = "real" if "real" in (t.sort, src.sort) else t.sort
@@ -1990,6 +2013,19 @@ def m_index_select(t, it, ctx, a, k):
     return VTensor(t.dims[:p] + [index.dims[0]] + t.dims[p + 1:], elem, t.sort)
 
 
+def m_to(t, it, ctx, a, k):
+    """.to(dtype) / .float() / .double(): value identity, except that a boolean tensor becomes the 0/1 real tensor"""
+    if t.sort == "bool":
+        args = list(a) + list(k.values())
+        wants_float = (not args) or any(isinstance(x, VAtom) and str(getattr(x, "name", x)).split(".")[-1] in ("float", "double", "half", "float32", "float64", "bfloat16") for x in args)
+        if wants_float:
+            return pointwise(ctx, [t], lambda x: z3.If(x, z3.RealVal(1), z3.RealVal(0)), sort="real")
+    return t
+
+
+METHODS["to"] = m_to
+METHODS["float"] = lambda t, it, ctx, a, k: m_to(t, it, ctx, [], {})
+METHODS["double"] = lambda t, it, ctx, a, k: m_to(t, it, ctx, [], {})
 METHODS["index_select"] = m_index_select
 METHODS["__getitem__"] = lambda t, it, ctx, a, k: index_tensor(t, it, ctx, a[0])
 METHODS["t"] = m_t
